@@ -21,10 +21,10 @@ ran = []
 demo = __import__('re').split(r'\s{2,}\(', meta.get('demo_cmd', ''))[0]      # agents sometimes append an explanation in parentheses
 rc1, o1 = sh(demo, cwd=src + '/SEED')
 ran.append('demo with change: exit %d' % rc1)
-sh('git stash -q', cwd=src)
+sh('git apply -R %s/SEED/patch.diff' % src, cwd=src)      # not git stash: the stash is shared by all worktrees of /repo
 rc2, o2 = sh(demo, cwd=src + '/SEED')
 ran.append('demo without change: exit %d' % rc2)
-sh('git stash pop -q', cwd=src)
+sh('git apply %s/SEED/patch.diff' % src, cwd=src)
 confirmed = rc1 != 0 and rc2 == 0
 # apply to /repo -- or, with SEED_FRAMEWORK=<another worktree of /verif>, run that worktree's checks against the seed's
 # own worktree (which has the change applied) so that neither /repo nor /verif/build is touched while other jobs use them
